@@ -52,6 +52,76 @@ class Scanner:
         for n, c in self.setattrs:
             virt = self._virtual_sites(n, c)
             self.sites.extend(virt if virt else [(n, c)])
+        # the functional form: the scan fills a dictionary D (D[K] = V) and the options object is MADE from it,
+        # options = CompileOptions(**D) / dataclasses.replace(options, **D) / CompileOptions(**{**options, **D}).  A directive takes effect where
+        # D[K] = V stands; the order of the merged parts decides who wins (R15.e)
+        self.applications = []          # (cfg node, call, [component expressions in merge order])
+        for n in self.cfg.nodes:
+            if n.id not in live or n.kind != "stmt" or not isinstance(n.ast, ast.Assign):
+                continue
+            if not any(isinstance(t, ast.Name) and t.id == self.opt_param for t in n.ast.targets) or not isinstance(n.ast.value, ast.Call):
+                continue
+            call = n.ast.value
+            comps = []
+            if norm(call.func) in ("dataclasses.replace", "replace") and call.args:
+                comps.append(call.args[0])
+            for k in call.keywords:
+                if k.arg is None:
+                    comps.extend(self._merge_parts(k.value))
+                else:
+                    comps.append(ast.Dict(keys=[ast.Constant(value=k.arg)], values=[k.value]))
+            if any(k.arg is None for k in call.keywords):
+                # a local that only stands for another dictionary (pragmas = _collected) is that dictionary
+                res = []
+                for c in comps:
+                    seen_ = set()
+                    while isinstance(c, ast.Name) and c.id != self.opt_param and c.id not in seen_:
+                        seen_.add(c.id)
+                        ds = self.rd.at(n.id, c.id)
+                        srcs = {d.value.id for d in ds if d.kind == "assign" and isinstance(d.value, ast.Name) and not d.index}
+                        if ds and len(srcs) == 1 and all(d.kind == "assign" and isinstance(d.value, ast.Name) and not d.index for d in ds):
+                            c = ast.copy_location(ast.Name(id=next(iter(srcs)), ctx=ast.Load()), c)
+                        else:
+                            break
+                    res.append(c)
+                self.applications.append((n, call, res))
+        self.pragma_dicts = set()
+        for n, call, comps in self.applications:
+            for c in comps:
+                if isinstance(c, ast.Name) and c.id != self.opt_param:
+                    fills = [st for st in ast.walk(self.fn) if isinstance(st, ast.Assign) and len(st.targets) == 1 and isinstance(st.targets[0], ast.Subscript)
+                             and norm(st.targets[0].value) == c.id]
+                    if fills:
+                        self.pragma_dicts.add(c.id)
+        if not self.setattrs:
+            for dn in sorted(self.pragma_dicts):
+                app = next(call for n, call, comps in self.applications if any(isinstance(c, ast.Name) and c.id == dn for c in comps))
+                for st in ast.walk(self.fn):
+                    if isinstance(st, ast.Assign) and len(st.targets) == 1 and isinstance(st.targets[0], ast.Subscript) and norm(st.targets[0].value) == dn:
+                        ids = [x.id for x in self.cfg.nodes_of(st)]
+                        if not ids:
+                            continue
+                        vc = ast.Call(func=ast.Name(id="setattr", ctx=ast.Load()), args=[ast.Name(id=self.opt_param, ctx=ast.Load()), st.targets[0].slice, st.value], keywords=[])
+                        ast.copy_location(vc, st)
+                        ast.fix_missing_locations(vc)
+                        vc.parent = st
+                        vc.virtual_for = app
+                        vc.application = app
+                        self.sites.append((self.cfg.nodes[ids[0]], vc))
+
+    def _merge_parts(self, e):
+        """the parts of a '**' argument in merge order: a name, or the entries of a dict display (later ones win)"""
+        if isinstance(e, ast.Dict):
+            out = []
+            for k, v in zip(e.keys, e.values):
+                if k is None:
+                    out.extend(self._merge_parts(v))
+                else:
+                    out.append(ast.Dict(keys=[k], values=[v]))
+            return out
+        if isinstance(e, ast.BinOp) and isinstance(e.op, ast.BitOr):
+            return self._merge_parts(e.left) + self._merge_parts(e.right)
+        return [e]
 
     def _virtual_sites(self, n, call):
         p = getattr(call, "parent", None)
@@ -299,7 +369,7 @@ def run(repo: Repo, chk: Check):
                 isinstance(st, ast.FunctionDef) and any(norm(d) == "property" or norm(d).endswith(".setter") for d in st.decorator_list):
             raise AnalysisError(f"CompileOptions.{st.name}: attribute access is customised; setattr on an options object is no longer a plain store")
     chk.ok("R15.d", "compile_pass:CompileOptions:plain dataclass fields", {"fields": sorted(sc.fields)})
-    if not sc.setattrs:
+    if not sc.setattrs and not sc.sites:
         raise AnalysisError("compile_code: no setattr site (directive application) found")
     fields = set(sc.fields)
     pending_error = None
@@ -419,6 +489,10 @@ def run(repo: Repo, chk: Check):
         oname = obj.id if isinstance(obj, ast.Name) else None
         chk.judge("R15.d", key + ":object is the options variable", oname == sc.opt_param, f"setattr target is {norm(obj)}", None, where)
         defs = sc.options_defs_at(n.id)
+        if getattr(call, "application", None) is not None:
+            # the directive goes into the object that the application makes
+            app_ = call.application
+            defs = [(norm(app_)[:60], norm(app_.func) in sc.FRESH)]
         shared = [t for t, fresh in defs if not fresh]
         chk.judge("R15.d", key + ":object is private to this call", bool(defs) and not shared,
                   f"directives are written into an object that outlives the call ({shared}): options named in one source leak "
@@ -527,6 +601,56 @@ def r15e(sc: Scanner, chk: Check, rule: str):
                   f"directives are applied after the scan from {coll or 'outside any loop'}" + ("" if ordered else
                   ": a set, or separate passes for enabling and disabling names, forget the order in which the directives were written, so the last directive for an option does not win"),
                   {"collection": coll}, f"{sc.mod.path}:{call.lineno} in compile_code")
+    if not sc.setattrs and sc.pragma_dicts:
+        for dn in sorted(sc.pragma_dicts):
+            nid0 = sc.applications[0][0].id
+            ds = sc.rd.at(nid0, dn)
+            empty = bool(ds) and all(d.kind == "assign" and (isinstance(d.value, ast.Dict) and not d.value.keys or isinstance(d.value, ast.Call) and norm(d.value) == "dict()") for d in ds)
+            fills = [st for st in ast.walk(sc.fn) if isinstance(st, ast.Assign) and any(isinstance(t, ast.Subscript) and norm(t.value) == dn for t in st.targets)]
+            others = [c for c in ast.walk(sc.fn) if isinstance(c, ast.Call) and isinstance(c.func, ast.Attribute) and norm(c.func.value) == dn and c.func.attr not in ("items", "get", "keys", "values", "copy")]
+            in_line_loop = all(any(any(x is st for x in ast.walk(ll.stmt)) for ll in line_loops) for st in fills)
+            conditional = []
+            for st in fills:
+                ids_ = [x.id for x in cfg.nodes_of(st)]
+                for t_, p_ in (cfg.guards(ids_[0]) if ids_ else []):
+                    if isinstance(t_, ast.expr) and dn in {x.id for x in ast.walk(t_) if isinstance(x, ast.Name)}:
+                        conditional.append(norm(t_))
+            ordered = empty and bool(fills) and not others and in_line_loop and not conditional
+            chk.judge(rule, f"compiler:compile_code:directives collected in {dn} keep their order (last wins)", ordered,
+                      f"the dictionary {dn} is not filled by plain item assignment inside the loop over the source lines (empty at first: {empty}; other changes: "
+                      f"{[norm(c)[:30] for c in others]}; conditions on it: {conditional}): the last directive for an option would not win", None, sc.where)
+            if ordered:
+                scan_loops.extend(ll for ll in line_loops if any(any(x is st for x in ast.walk(ll.stmt)) for st in fills))
+            # who wins: a directive must override what the caller passed, so the directives are the LAST part of every merge they take part in
+            with_d = [(n_, call_, comps) for n_, call_, comps in sc.applications if any(isinstance(c, ast.Name) and c.id == dn for c in comps)]
+            for n_, call_, comps in with_d:
+                pos = [i for i, c in enumerate(comps) if isinstance(c, ast.Name) and c.id == dn]
+                later = [norm(c)[:30] for i, c in enumerate(comps) if i > pos[-1]]
+                chk.judge(rule, f"compiler:compile_code:{norm(call_.func)}(...): the directives are merged in last", not later,
+                          f"in {norm(call_)[:70]} the collected directives are followed by {later}: what the caller passed overrides the directive, "
+                          f"'# pytrapic: compact' has no effect when the caller's options say compact=False", None,
+                          f"{sc.mod.path}:{call_.lineno} in compile_code")
+            # ... and no way leads from a collected directive to the compiler that does not pass such a merge
+            merge_ids = {n_.id for n_, _c, _cs in with_d}
+            sinks = [n2.id for n2 in cfg.nodes if n2.id in live and n2.kind in ("stmt", "return") and n2.ast is not None and any(
+                isinstance(c, ast.Call) and norm(c.func) == "Compiler" and any(isinstance(a, ast.Name) and a.id == sc.opt_param for a in c.args) for c in ast.walk(n2.ast))]
+            if not sinks:
+                raise AnalysisError("compile_code: the call Compiler(options) was not found")
+            lost = False
+            for st in fills:
+                seen, stack = set(), [x.id for x in cfg.nodes_of(st)]
+                while stack:
+                    a_ = stack.pop()
+                    if a_ in seen or a_ in merge_ids:
+                        continue
+                    seen.add(a_)
+                    if a_ in sinks:
+                        lost = True
+                        break
+                    stack.extend(b_ for b_, lab in cfg.succ[a_] if not (isinstance(lab, tuple) and lab[0] == "exc"))
+            chk.judge(rule, f"compiler:compile_code:every collected directive reaches the options the compiler gets", not lost,
+                      f"a path leads from '{dn}[name] = value' to Compiler(options) without the dictionary being merged into the options: for that kind of caller the "
+                      f"'# pytrapic:' lines are ignored", None, sc.where)
     if not scan_loops:
         raise AnalysisError("compile_code: directive application is not inside a loop over the source lines")
     # option reads: options.<field> loads, or options passed as a call argument, outside the scan loops
